@@ -2,7 +2,7 @@
 (* Lifecycle specification and monitor for C09. One event per execution of a faulted font:        *)
 (*   steps: sequence of [name, res]; the first is Open; res in {"ok", "err"} are the only outcomes  *)
 (*   the specification accepts ("panic:...", "timeout", "crash:..." are accepted by no action);     *)
-(*   Open = err ends the lifecycle; allockb (KiB allocated) must stay proportional to size;          *)
+(*   Open = err ends the lifecycle; allockb (growth of the live heap at its highest sampled point, KiB) must stay proportional to size;          *)
 (*   raw: for sfnt files that opened, per directory entry [off, len, res, got]: RawTable must         *)
 (*   return exactly the bytes [off, off+len) when they lie inside the file and an error otherwise.   *)
 EXTENDS Integers, Sequences, FiniteSets, TLC, Json, IOUtils
